@@ -458,7 +458,7 @@ def formula_shrinks(f):
             yield (f[0], f[1]) + ks[:i] + (s,) + ks[i + 1:]
 
 
-def shrink(case, fails, budget=300):
+def shrink(case, fails, budget=300, shrink_data=True):
     """Greedy shrink of ``case`` = dict(formula=..., data={var: [..]}, ...) under ``fails(case)``.
 
     ``fails`` must return a truthy value when the (smaller) case still shows the same problem.
@@ -491,7 +491,7 @@ def shrink(case, fails, budget=300):
         if improved:
             continue
         data = cur.get('data')
-        if isinstance(data, dict) and data:
+        if shrink_data and isinstance(data, dict) and data:
             n = len(next(iter(data.values())))
             for cut in (n // 2, n - 1):
                 if 1 <= cut < n:
